@@ -1690,7 +1690,7 @@ Definition lru_full (w : worker) : bool :=
 Definition block_okb (pre post : worker) (h : N) (ids : list N) : bool :=
   let pp := w_pool pre in let pq := w_pool post in
   forallb (fun id => negb (has_node (p_g pq) id) && negb (amem N.eqb id (p_txmap pq))) ids &&
-  (lru_full post ||
+  (lru_full post || negb (cfg_utxo_validation (p_cfg pp)) ||
    forallb (fun id => match get_node (p_g pp) id with
                       | Some n => forallb (fun k => lru_mem k (s_lru (p_spent pq)))
                                           (KTx id :: input_keys (t_ins (n_tx n)))
